@@ -200,7 +200,7 @@ PROPERTY = {
 _B = (True, False)
 _BK = 'plinio/methods/mps/quant/backends/'
 HARNESSES = [
-    dict(name='maupiti-shared-quantizer', fn='h_maupiti_shared_quantizer', property=['C14'], functions=[_BK + 'maupiti/nn/conv2d.py::MAUPITIConv2d.__init__', _BK + 'maupiti/nn/conv2d.py::MAUPITIConv2d._integer_approximation'],
+    dict(name='maupiti-shared-quantizer', bounded='concrete values (two weight magnitudes per configuration), not symbolic', fn='h_maupiti_shared_quantizer', property=['C14'], functions=[_BK + 'maupiti/nn/conv2d.py::MAUPITIConv2d.__init__', _BK + 'maupiti/nn/conv2d.py::MAUPITIConv2d._integer_approximation'],
          quick=[dict(wa=4.0, wb=0.5), dict(wa=0.25, wb=2.0)], thorough=[dict(wa=a, wb=b) for a in (4.0, 0.25, 1.0) for b in (0.5, 2.0, 1.0)], timeout=60, crosscheck=1),
     dict(name='binary-search', fn='h_binary_search', property=['C14'], functions=[_BK + 'utils.py::binary_search'],
          quick=[dict(div=d) for d in (1, 0.5, 0.25, 2 ** -10, 2 ** -23)], thorough=[dict(div=2 ** -s) for s in range(0, 32)], crosscheck=0),
